@@ -54,6 +54,36 @@ def _classes():
 
 
 KEYS = ['k1', 'k2', 'k3']
+NONE = 9999
+_TYPED: Dict[str, Any] = {}
+
+
+def _value_spec(fs: dict):
+  import pyglove as pg  # pylint: disable=import-outside-toplevel
+  T = pg.typing
+  lo = None if fs['lo'] == NONE else fs['lo']
+  hi = None if fs['hi'] == NONE else fs['hi']
+  k = fs['k']
+  if k == 'float':
+    return T.Float(min_value=None if lo is None else lo / 10.0, max_value=None if hi is None else hi / 10.0)
+  if k == 'int':
+    return T.Int(min_value=lo, max_value=hi)
+  if k == 'enum':
+    return T.Enum(fs['lo'], [fs['lo'], fs['hi']])
+  if k == 'intlist':
+    return T.List(T.Int(min_value=lo, max_value=hi))
+  raise ValueError(k)
+
+
+def typed_class(fs_list: List[dict]):
+  """A pg.Object class whose fields f1.. carry the value specs of the abstract field specs (one class per signature)."""
+  import pyglove as pg  # pylint: disable=import-outside-toplevel
+  key = json.dumps(fs_list, sort_keys=True)
+  if key not in _TYPED:
+    cls = type(f'VerifTyped{len(_TYPED)}', (pg.Object,), {'_verif_fs': fs_list})
+    cls = pg.members([(f'f{i + 1}', _value_spec(fs)) for i, fs in enumerate(fs_list)])(cls)
+    _TYPED[key] = cls
+  return _TYPED[key]
 
 
 def build(t: dict):
@@ -70,6 +100,8 @@ def build(t: dict):
   if h == 'obj':
     cls = _classes()[f'A{len(t["items"])}']
     return cls(*[build(x) for x in t['items']])
+  if h == 'tobj':
+    return typed_class(t['fs'])(*[build(x) for x in t['items']])
   if h == 'oneof':
     return pg.oneof([build(c) for c in t['cands']])
   if h == 'manyof':
@@ -121,6 +153,9 @@ def project_value(v) -> dict:
     return {'h': 'dict', 'items': [project_value(v[k]) for k in keys]}
   if isinstance(v, list):                # pg.List, or the plain list a ManyOf decodes to at the root
     return {'h': 'list', 'items': [project_value(x) for x in v]}
+  if hasattr(type(v), '_verif_fs'):
+    return {'h': 'tobj', 'fs': type(v)._verif_fs,  # pylint: disable=protected-access
+            'items': [project_value(v.sym_getattr(k)) for k in list(v.sym_keys())]}
   if isinstance(v, (c['A1'], c['A2'], c['A3'])):
     return {'h': 'obj', 'items': [project_value(v.sym_getattr(k)) for k in list(v.sym_keys())]}
   return {'h': 'leaf', 'v': -9}
@@ -132,6 +167,11 @@ def value_str(v: dict) -> str:
     return str(v['v'])
   if h == 'fleaf':
     return str(v['v'] / 10.0)
+  if h == 'tobj':
+    def fs_str(f):
+      b = lambda x: '' if x == NONE else str(x / 10.0 if f['k'] == 'float' else x)
+      return f"{f['k']}[{b(f['lo'])},{b(f['hi'])}]"
+    return 'T(' + ', '.join(f'{fs_str(f)}={value_str(x)}' for f, x in zip(v['fs'], v['items'])) + ')'
   if h in ('dict', 'list', 'obj'):
     o, c = {'dict': '{}', 'list': '[]', 'obj': ('A(', ')')}[h]
     return o + ', '.join(value_str(x) for x in v['items']) + c
@@ -164,23 +204,41 @@ def _json(v) -> str:
   return hashlib.sha1(json.dumps(pg.to_json(v), sort_keys=True, default=repr).encode()).hexdigest()[:16]
 
 
+OTHER_FILTERS = ['oneof', 'choices', 'many3']
+
+
 def observe_c13(entry: dict, seed: int, opts: dict) -> dict:
   import pyglove as pg  # pylint: disable=import-outside-toplevel
   tj, w = entry['tmpl'], entry['wh']
   errs: List[str] = []
   o: Dict[str, Any] = {'index': entry['index'], 'tmpl': tj, 'wh': w, 'spec': {'t': 'space', 'elems': []}, 'size': -2,
-                       'dnas': [], 'iter': [], 'hasiter': False, 'errs': errs}
+                       'dnas': [], 'iter': [], 'hasiter': False, 'errs': errs, 'bind_rejected': False,
+                       'json': [], 'hist': [], 'spec_all_after': {'t': 'space', 'elems': []}, 'hashist': False}
+  # binding: building the value binds every placeholder to the value spec of its field
   try:
     value = build(tj)
+  except Exception as e:  # pylint: disable=broad-except
+    o['bind_rejected'] = True
+    o['bind_error'] = type(e).__name__ + ':' + str(e)[:120]
+    return o
+  if not entry['bindok']:
+    return o                                    # accepted although the model says it must be refused: TLC reports it
+  # purity is judged on the USER'S value from the moment it exists: [stage, digest] after every use
+  stages = o['json']
+  stages.append(['built', _json(value)])
+  try:
     wf = where_fn(w)
+    early_all = pg.template(value) if w != 'all' else None      # an unfiltered template built BEFORE the filtered use
+    stages.append(['template_all_early', _json(value)])
     t = pg.template(value, wf)
+    stages.append(['template', _json(value)])
     spec = t.dna_spec()
     o['spec'] = project_spec(spec)
     o['size'] = spec.space_size
+    stages.append(['dna_spec', _json(value)])
   except Exception as e:  # pylint: disable=broad-except
-    errs.append('build:' + type(e).__name__ + ':' + str(e)[:120])
+    errs.append('template:' + type(e).__name__ + ':' + str(e)[:120])
     return o
-  before = _json(value)
   for j, tree in enumerate(entry['dnas']):
     rec: Dict[str, Any] = {'tree': tree}
     try:
@@ -188,7 +246,7 @@ def observe_c13(entry: dict, seed: int, opts: dict) -> dict:
       rec['tree'] = project(dna)
       v1 = t.decode(dna)
       rec['decoded'] = project_value(v1)
-      rec['json_after_decode'] = _json(value)
+      stages.append(['decode', _json(value)])
       v2 = t.decode(mk_dna(tree))
       rec['decoded_again'] = project_value(v2)
       rec['twice_eq'] = bool(pg.eq(v1, v2))
@@ -201,10 +259,9 @@ def observe_c13(entry: dict, seed: int, opts: dict) -> dict:
         rec['encoded'] = ['!', 0, []]
         rec['redecoded'] = {'h': 'leaf', 'v': -8}
         rec['encode_error'] = type(e).__name__ + ':' + str(e)[:100]
-      rec['json_after_encode'] = _json(value)
+      stages.append(['encode', _json(value)])
       rec['materialized'] = project_value(pg.materialize(value, mk_dna(tree), where=wf))
-      rec['json_after_materialize'] = _json(value)
-      rec['json_before'] = before
+      stages.append(['materialize', _json(value)])
     except Exception as e:  # pylint: disable=broad-except
       errs.append(f'dna {geno.tree_str(tree)}:' + type(e).__name__ + ':' + str(e)[:120])
       continue
@@ -217,9 +274,43 @@ def observe_c13(entry: dict, seed: int, opts: dict) -> dict:
         o['iter'].append(project_value(x))
         if len(o['iter']) >= cap:
           break
-      o['json_after_iter'] = _json(value)
     except Exception as e:  # pylint: disable=broad-except
       errs.append('iter:' + type(e).__name__ + ':' + str(e)[:120])
-  o.setdefault('json_after_iter', before)
-  o['json_before'] = before
+    stages.append(['iter', _json(value)])
+  # histories over the SAME value object: filtered use first, unfiltered afterwards (and the other way round)
+  try:
+    if w != 'all':
+      o['hashist'] = True
+      late_all = pg.template(value)
+      o['spec_all_after'] = project_spec(late_all.dna_spec())
+      for tree in entry['dnas_all']:
+        row = [tree]
+        for tt in (early_all, late_all):
+          try:
+            row.append(project_value(tt.decode(mk_dna(tree))))
+          except Exception as e:  # pylint: disable=broad-except
+            row.append({'h': 'leaf', 'v': -7})
+        o['hist'].append(row)
+      stages.append(['unfiltered_after_filtered', _json(value)])
+    else:
+      for f in OTHER_FILTERS:                     # filtered uses after the unfiltered one
+        tf = pg.template(value, where_fn(f))
+        tf.dna_spec()
+        stages.append(['template_where_' + f, _json(value)])
+        try:
+          for k, _ in enumerate(pg.iter(value, where=where_fn(f))):
+            if k >= 3:
+              break
+        except ValueError:
+          pass                                    # constant under this filter
+        stages.append(['iter_where_' + f, _json(value)])
+      if entry['dnas']:
+        o['hashist'] = True
+        o['spec_all_after'] = project_spec(pg.template(value).dna_spec())
+        tree = entry['dnas'][0]
+        o['hist'].append([tree, project_value(t.decode(mk_dna(tree))),
+                          project_value(pg.template(value).decode(mk_dna(tree)))])
+      stages.append(['unfiltered_after_filtered', _json(value)])
+  except Exception as e:  # pylint: disable=broad-except
+    errs.append('history:' + type(e).__name__ + ':' + str(e)[:120])
   return o
